@@ -268,3 +268,71 @@ def plainOf (orig : List Nat) : List Piece → Option (List Nat)
     | _, _ => none
 
 end Bleve.Highlight
+
+namespace Bleve.Highlight
+
+/-! ### what a formatted fragment must look like (the end-to-end clause of C19, executable)
+
+`fragmentOK stored locs frag`: with the separator, the `<mark>` markup and the HTML escaping removed,
+`frag` is a contiguous piece of `stored`, placed so that every marked span is a union of term
+locations (every byte of it lies in a location that itself lies inside the span). -/
+
+/-- `html.UnescapeString` restricted to what `html.EscapeString` produces -/
+def unescapeHtml : List Nat → List Nat
+  | 38 :: 97 :: 109 :: 112 :: 59 :: r => 38 :: unescapeHtml r
+  | 38 :: 35 :: 51 :: 57 :: 59 :: r => 39 :: unescapeHtml r
+  | 38 :: 108 :: 116 :: 59 :: r => 60 :: unescapeHtml r
+  | 38 :: 103 :: 116 :: 59 :: r => 62 :: unescapeHtml r
+  | 38 :: 35 :: 51 :: 52 :: 59 :: r => 34 :: unescapeHtml r
+  | b :: r => b :: unescapeHtml r
+  | [] => []
+
+def markOpen : List Nat := [60, 109, 97, 114, 107, 62]          -- <mark>
+def markClose : List Nat := [60, 47, 109, 97, 114, 107, 62]     -- </mark>
+def ellipsis : List Nat := [0xe2, 0x80, 0xa6]                    -- the default separator
+
+def stripPrefix (p l : List Nat) : Option (List Nat) :=
+  if p.isPrefixOf l then some (l.drop p.length) else none
+
+/-- split escaped text at the markup: pieces (marked?, escaped bytes); `none` = unbalanced markup -/
+def splitMarks : Nat → List Nat → Bool → List Nat → Option (List (Bool × List Nat))
+  | 0, _, _, _ => none
+  | fuel + 1, l, inMark, acc =>
+    match l with
+    | [] => if inMark then none else some [(false, acc.reverse)]
+    | b :: r =>
+      if !inMark then
+        match stripPrefix markOpen l with
+        | some rest => (splitMarks fuel rest true []).map ((false, acc.reverse) :: ·)
+        | none => splitMarks fuel r false (b :: acc)
+      else
+        match stripPrefix markClose l with
+        | some rest => (splitMarks fuel rest false []).map ((true, acc.reverse) :: ·)
+        | none => splitMarks fuel r true (b :: acc)
+
+/-- does `p` occur in `l` at offset `o` -/
+def occursAt (p l : List Nat) (o : Nat) : Bool := p.isPrefixOf (l.drop o)
+
+/-- a marked span is a union of locations lying inside it -/
+def spanOK (locs : List Loc) (a b : Nat) : Bool :=
+  (List.range (b - a)).all (fun i =>
+    locs.any (fun l => decide ((a : Int) ≤ l.start) && decide (l.stop ≤ (b : Int)) &&
+      decide (l.start ≤ ((a + i : Nat) : Int)) && decide (((a + i : Nat) : Int) < l.stop)))
+
+def fragmentOK (stored : List Nat) (locs : List Loc) (frag : List Nat) : String :=
+  let frag := match stripPrefix ellipsis frag with | some r => r | none => frag
+  let frag := if ellipsis.isPrefixOf (frag.reverse.take 3).reverse && frag.length ≥ 3 then frag.take (frag.length - 3) else frag
+  match splitMarks (frag.length + 2) frag false [] with
+  | none => "BAD-MARKUP"
+  | some pieces =>
+    let pieces := pieces.map (fun p => (p.1, unescapeHtml p.2))
+    let plain := pieces.flatMap (·.2)
+    -- marked spans as offsets into the plain text
+    let spans := (pieces.foldl (fun (st : Nat × List (Nat × Nat)) p =>
+      (st.1 + p.2.length, if p.1 then st.2 ++ [(st.1, st.1 + p.2.length)] else st.2)) (0, [])).2
+    let offsets := (List.range (stored.length + 1 - plain.length)).filter (occursAt plain stored)
+    if plain.length > stored.length || offsets.isEmpty then "NOT-A-PIECE-OF-THE-VALUE"
+    else if offsets.any (fun o => spans.all (fun s => spanOK locs (o + s.1) (o + s.2))) then "ok"
+    else "MARK-NOT-AT-TERM-LOCATIONS"
+
+end Bleve.Highlight
